@@ -116,6 +116,16 @@ pub fn check(c: &History) -> Result<(), String> {
                     s.h.update_rayon(bytes);
                 }
                 #[cfg(feature = "full")]
+                Op::UpdateMmap(_) | Op::UpdateMmapRayon(_) if bytes.len() % 4 == 3 => {
+                    // one time in four the path is not a mappable regular file but a named pipe delivering the same bytes
+                    // in three pieces (the documented fallback to ordinary reads)
+                    let third = (bytes.len() / 3) as u32;
+                    let rayon = matches!(op, Op::UpdateMmapRayon(_));
+                    let h = &mut s.h;
+                    let r = crate::props::c11::through_fifo(bytes, &[third, third], 200, |path| if rayon { h.update_mmap_rayon(path).map(|_| ()) } else { h.update_mmap(path).map(|_| ()) })?;
+                    r.map_err(|e| format!("{}: update_mmap{} on a named pipe: {}", what, if rayon { "_rayon" } else { "" }, e))?;
+                }
+                #[cfg(feature = "full")]
                 Op::UpdateMmap(_) | Op::UpdateMmapRayon(_) => {
                     let f = hist::ScratchFile::with_bytes("c02", bytes).map_err(|e| format!("ENGINE scratch file: {}", e))?;
                     if matches!(op, Op::UpdateMmap(_)) {
@@ -412,7 +422,7 @@ fn huge_items(tier: Tier) -> Box<dyn Iterator<Item = HugeCase>> {
 }
 
 pub fn subs() -> Vec<Box<dyn DynSub>> {
-    vec![Box::new(PropSub::<History> {
+    let mut v: Vec<Box<dyn DynSub>> = vec![Box::new(PropSub::<History> {
         name: "histories",
         rule: "proptest: histories of update/Write/io::copy/update_reader/update_rayon/update_mmap*/finalize/finalize_xof/count/clone/clone_from/select over <=3 hashers of one mode (0-40 ops, <=256 KiB quick; 0-200 ops, <=8 MiB thorough), sizes resolved against the running total (block/chunk/power-of-two/SIMD-degree boundaries +-delta); model = independent spec over the bytes absorbed by each instance, compared after every op; non-trivial = >=2 absorbing ops, >1 chunk total, some op boundary off a chunk boundary",
         cases: (48_000, 400_000),
@@ -441,5 +451,21 @@ pub fn subs() -> Vec<Box<dyn DynSub>> {
         exhaustive: false,
         known: None,
         crumb: false,
-    })]
+    })];
+    #[cfg(feature = "full")]
+    v.push(Box::new(crate::runner::EnumSub::<crate::props::c11::FCase> {
+        name: "unmappable-files",
+        rule: "enumeration: update_mmap / update_mmap_rayon / update_reader on files of this system that cannot be memory-mapped or have no length (sysfs binary attribute, procfs files), present with stable content: the documented fallback to ordinary reads must absorb exactly the file's bytes (same oracle as C11 files-lattice; shared code)",
+        items: |_| {
+            let v: Vec<crate::props::c11::FCase> =
+                ["/sys/kernel/btf/vmlinux", "/proc/kallsyms", "/proc/version", "/sys/kernel/notes"].iter().map(|p| crate::props::c11::FCase::Special { path: p.to_string() }).collect();
+            Box::new(v.into_iter())
+        },
+        classify: |_| Classes::new(true).tag(true, "special-path"),
+        check: crate::props::c11::check_file,
+        exhaustive: false,
+        known: None,
+        crumb: false,
+    }));
+    v
 }
